@@ -214,7 +214,7 @@ PROPS = {
     ),
     "C18": dict(
         lean_targets=["SJ.Props.C18", "SJ.Audit.C18"],
-        configs=dict(quick=["d"], thorough=["d", "po", "ap"]),
+        configs=dict(quick=["d", "ap"], thorough=["d", "po", "ap"]),
         gen_keys=["pointer.", "index.", "partial_eq.", "jsonmacro."],
         rule="pointer: fixed index/escape corpus; every pointer of length <= 5 (thorough 6) over the alphabet /~01a- against a "
              "document with every escape-relevant key; every existing path of random documents in RFC-order, "
@@ -225,7 +225,10 @@ PROPS = {
              "take through every kind of pointer. peq: ten integer types x boundary comparands (MIN, MAX, 0, +-1, 2^k+-1 for "
              "k in 7..64) x 80 values (PosInt/NegInt/Float at every type boundary, strings, bools, null, containers), f64/f32 "
              "comparands incl. NaN, +-0, +-inf, 2^53, 2^63, 2^64, bool, str/String; random value/comparand pairs that are equal, "
-             "adjacent, 2^64 apart or unrelated (default build only; non-trivial: number, string or bool value). json!: 20 fixed "
+             "adjacent, 2^64 apart or unrelated (non-trivial: number, string or bool value); in builds with arbitrary_precision (quick tier: "
+             "this op only) the same comparands against the same values as string-backed numbers plus 80 parsed literals in spellings "
+             "Value::from never produces (-0, 1.0, 1e2, 100.0, 10e1, 0.10, 2^53+1, 2^64, 2^128-1, f32/f64 extremes and midpoints, 1e400, "
+             "1e-400, long fractions) and random number texts of the C20 generator, case lines tagged with the configuration. json!: 20 fixed "
              "and 2000 (thorough 20000) random token trees - depth <= 3, trailing commas, duplicate keys from a 3-key pool, "
              "literal / bare-variable / parenthesised / char keys, interpolated variables of 16 Rust types and compound "
              "expressions - written into a Rust program that is compiled against the tree under check and prints the macro's "
@@ -233,11 +236,20 @@ PROPS = {
         trusted_base=[KERNEL, TIE,
                       "str::split / str::replace / str::parse::<usize> / Vec::get / Map::get / Map::insert / Entry::or_insert / mem::replace modelled by their documented semantics",
                       "Rust `as` casts (integer wrap-around, round-to-nearest-even to floats) and IEEE-754 `==` modelled by their language definition",
+                      "arbitrary_precision accessors: <i64/u64 as FromStr> (from_str_radix grammar) and <f64/f32 as FromStr> (core::num::dec2flt: "
+                      "grammar [+-]?(inf|infinity|nan|digits[.digits][e[+-]digits]); result correctly rounded, overflow to +-inf) by their documented "
+                      "contract - the model rounds the exact decimal value with Spec.Ieee.roundNE64/32 (Model.NumberAp); compared with the crate on every ap case",
                       "rustc's macro-by-example matcher (rule order, `$e:expr` taking one maximal expression, nonterminal look-ahead) modelled as described in Model/JsonMacro.lean; exercised by the generated program"],
         assumptions=["Rust std string, slice and map primitives behave as documented",
                      "an interpolated expression enters the json! model as the Value to_value(&e).unwrap() gives (to_value itself is C15)",
                      "64-bit target (isize = i64, usize = u64)"],
-        partial=["c18_partial_eq / c18_partial_eq_float: default build only (arbitrary_precision accessors parse the literal text; not modelled, not run)",
+        partial=["c18_partial_eq_ap (arbitrary_precision): 'holds that value' is read on the literal - an integer comparand equals exactly the integer "
+                 "literals (no fraction/exponent) of that value; the two builds differ on one literal only, -0, which equals 0 of the signed types and no "
+                 "unsigned 0 under the feature ('-0'.parse::<i64>() = Ok(0), ::<u64>() fails) and equals no integer in the default build (it is a float): "
+                 "c18_partial_eq_ap_differs states this precisely; the inconsistency between 0i64 and 0u64 is inherent to the accessor definitions "
+                 "C20 asks for and is not reported as a finding",
+                 "c18_partial_eq_float_ap: f32 comparands are compared with ONE rounding of the decimal text to binary32 (as_f32 = parse::<f32>), the "
+                 "default build with the f64 rounded again",
                  "c18_partial_eq_float is a transcription-level statement: the float clause is read as IEEE equality after one correctly rounded conversion (so json!(2^53+1) == 2^53 as f64 and json!(1e300) == f32::INFINITY hold); the integer, bool and string clauses are full strength",
                  "c18_json_macro: for token trees that are JSON-shaped (Spec.JsonMacro.shape); what the rules do outside that shape (e.g. json!([,1]) == [1]) is modelled and run but not specified"],
         technique="Lean 4 theorems: models of Value::pointer/pointer_mut/get/get_mut/Index/IndexMut/take, of PartialEq with primitives and of the "
@@ -248,13 +260,17 @@ PROPS = {
                    "get_mut / Index / IndexMut / take = direct container access, insert-if-missing-then-address with panics exactly on the documented "
                    "cases, for every value and probe, both map configurations); c18_partial_eq (for every integer type row of the extracted "
                    "partialeq_numeric! table and every in-range comparand, == is true iff the value is an integer Number holding exactly that integer; "
-                   "bool and strings likewise), c18_partial_eq_float, c18_partial_eq_nan; c18_json_macro (the json_internal! rules applied in source order "
+                   "bool and strings likewise), c18_partial_eq_float, c18_partial_eq_nan; the same under arbitrary_precision over the string-backed "
+                   "Number (Model.PartialEqAp / Model.NumberAp): c18_partial_eq_ap (== an integer iff the literal is an integer literal of that value, "
+                   "unsigned comparands additionally need a literal without minus sign), c18_partial_eq_float_ap (IEEE equality with the nearest finite "
+                   "f64 / f32 of the literal's exact value, nothing when that is not finite), c18_partial_eq_ap_differs; c18_json_macro (the json_internal! rules applied in source order "
                    "to any JSON-shaped token tree build the value the equivalent JSON text parses to: arrays in order, last duplicate key wins) and "
                    "c18_json_rules_tied (the rule list regenerated from src/macros.rs is the transcribed one). All models run against the real crate "
                    "on generated cases every check, json! through a generated program compiled against the tree under check.",
         level_note="Trusted: Lean kernel + propext/Classical.choice/Quot.sound; extract.py; the harness/driver comparison; std primitives, `as` casts and "
                    "rustc's macro matcher modelled by documented semantics. Float comparands: the statement is IEEE equality after conversion (see partial). "
-                   "PartialEq clause not covered under arbitrary_precision. Observation (not a violation of the stated property): json!([,1]) compiles and equals [1].",
+                   "PartialEq under arbitrary_precision is modelled, proved and run (std's str::parse assumed correctly rounded). Observation (not a violation "
+                   "of the stated property): json!([,1]) compiles and equals [1]; under arbitrary_precision the literal -0 equals 0i64 but not 0u64.",
     ),
 }
 
@@ -274,7 +290,10 @@ PROPS["C10"] = dict(
          "structs from objects and arrays, every enum spelling, bytes from strings with lone surrogates, f32, nested options), the "
          "crafted typed corpus of C16's op tt, 61 number spellings against every leaf target and as quoted keys of every integer "
          "width, and 2000 (thorough 20000) random schemas with a matching value's compact and whitespace-spaced text; every "
-         "prefix is run through the universal seed (str, slice or reader) and through the typed model Model.Typed.deTypedTop.",
+         "prefix is run through the universal seed (str, slice or reader) and through the typed model Model.Typed.deTypedTop. "
+         "Streams (op spfx): the whole next()/byte_offset() history of StreamDeserializer<Value> / <IgnoredAny> over EVERY prefix of 19 "
+         "fixed streams, every token sequence of length <= 2 (thorough 3) that starts with a value, and 300 (thorough 3000) "
+         "concatenations of 1-4 generated values with every separator choice; source chosen per case among str, slice, reader.",
     trusted_base=MACHINE_TB,
     assumptions=["raw values as typed targets are covered by correspondence only (C19); the typed theorems are about the universal "
                  "seed's schema universe (harness/src/schema.rs), whose visitors are transcribed in SJ/Model/FromValue.lean",
@@ -286,7 +305,8 @@ PROPS["C10"] = dict(
              "c10_typed_prefix_partial: for schemas containing an f64 / f32 / Value target the typed theorem carries the same inherent "
              "NumberOutOfRange exception (a prefix can be a complete out-of-range float literal); c10_typed_prefix has no exception "
              "for every other schema (128-bit integers and all key kinds included)",
-             "stream iteration: not modelled"],
+             "c10_stream_prefix_partial: streams of Value items carry the same inherent NumberOutOfRange exception (open known finding "
+             "C10-out-of-range-number-prefix-stream); c10_stream_prefix_ignored has none; streams of typed item types are not modelled"],
     technique="Lean 4 theorems over a byte-step machine model (fold decomposition + exhaustive analysis of the end-of-input table "
               "against the classify arms regenerated from error.rs) + differential prefix sweep against the crate",
     level_text="Machine-checked: for the Value and IgnoredAny targets, in every feature configuration and for every input source, "
@@ -302,13 +322,18 @@ PROPS["C10"] = dict(
                "deserializer + end() is never accepted with a different reading: it fails with an Eof-classified error (visitor "
                "errors and fuel exhaustion excluded by proof: typed_no_panic, typed_fuel_suffices); c10_typed_prefix_partial covers "
                "all schemas with the NumberOutOfRange exception; c10_typed_core is the relational core. "
+               "Streams: c10_stream_prefix_partial / c10_stream_prefix_ignored - as long as the stream over the whole input yields values, the "
+               "stream over any prefix yields the same values with the same byte_offset()s up to the one call that runs into the cut, and "
+               "that call yields None at the cut, a value ending exactly at the cut (a number literal cut short is a shorter number: the "
+               "end of input delimits a bare scalar), or an error positioned at the end of the prefix that is Eof-classified (Value items: "
+               "or the inherent NumberOutOfRange) - never another Syntax error, never a value or offset the full input does not produce. "
                "classify and the error codes are regenerated from src/error.rs each run; the machine and the typed model are compared "
                "with the crate on every prefix of generated and exhaustive short documents, and the property's own predicate is "
                "evaluated on the crate's outputs.",
     level_note="Trusted: Lean kernel + propext/Classical.choice/Quot.sound; extract.py; harness/driver; the hand-written machine model "
                "(validated by correspondence, 0 disagreements) and the hand-written typed model SJ/Model/Typed.lean (transcription of "
-               "impl Deserializer for &mut Deserializer<R>, validated by ops tt / tt3 / pfxs / rfaults, 0 disagreements). Raw values and "
-               "streams are not inside the typed model.",
+               "impl Deserializer for &mut Deserializer<R>, validated by ops tt / tt3 / pfxs / rfaults, 0 disagreements); the stream model "
+               "Model.Stream (ops stream, spfx). Raw values are not inside the typed model (C19 has its own).",
 )
 
 PARSE_RULE = ("every token sequence of length <= 3 (thorough: 4, 1/4 sampled by seed) over the 43-token structural alphabet "
@@ -320,17 +345,27 @@ PARSE_RULE = ("every token sequence of length <= 3 (thorough: 4, 1/4 sampled by 
               "distinct = distinct (op, config, input) lines.")
 
 PROPS["C09"] = dict(
-    lean_targets=["SJ.Props.C09", "SJ.Props.TypedSrc", "SJ.Audit.C09"],
-    configs=dict(quick=["d", "ap"], thorough=["d", "ap", "fr", "po"]),
+    lean_targets=["SJ.Props.C09", "SJ.Props.TypedSrc", "SJ.Props.C09Stream", "SJ.Audit.C09"],
+    configs=dict(quick=["d", "ap", "rv"], thorough=["d", "ap", "fr", "po", "rv"]),
     gen_keys=["error.", "de."],
     rule=PARSE_RULE + " C09 adds multi-line documents (spaces turned into newlines) with 4 mutations each; the three sources' "
          "outcomes (message, category, line, column, value) are compared with each other and with the model. Typed targets (op tt3): "
-         "the crafted typed corpus and random (schema, text) pairs with byte-level mutations, each from str, slice and a chunked reader.",
+         "the crafted typed corpus and random (schema, text) pairs with byte-level mutations, each from str, slice and a chunked reader. "
+         "Streams (op stream3): whole next()/byte_offset() histories of StreamDeserializer<Value> and <IgnoredAny> from str, slice and a "
+         "reader with a random chunking, continuing 3 calls past the end, on 47 fixed streams (multi-line ones included), every token "
+         "sequence of length <= 2 (thorough 3), concatenations of 1-4 generated values with every separator choice, each truncated and "
+         "twice corrupted. Raw values (raw_value configuration; ops raw3, rawnest): Box<RawValue> from the three sources on a fixed "
+         "corpus, every token sequence of length <= 2 (thorough 3), multi-line generated documents with 3 mutations each; "
+         "Vec<Box<RawValue>> / map-of-RawValue captures of generated arrays and objects with 2 mutations each.",
     trusted_base=MACHINE_TB,
     assumptions=["io::Bytes yields the reader's bytes one at a time in order, whatever the chunking (std)",
-                 "raw values and stream iteration are not inside the model; typed targets are modelled (Model.Typed) and run by "
-                 "op tt3 (str, slice, reader outcomes of one text against deTypedTop with src = slice / reader)"],
-    partial=["raw, stream byte_offset: correspondence only"],
+                 "typed targets are modelled (Model.Typed) and run by op tt3 (str, slice, reader outcomes of one text against "
+                 "deTypedTop with src = slice / reader); streams by Model.Stream (op stream3), raw captures by Model.Raw / "
+                 "Model.RawNested (ops raw3, rawnest)"],
+    partial=["c09_raw_nested_sources / c09_raw_map_sources state the agreement of SUCCESSFUL nested captures (Vec<Box<RawValue>>, map of "
+             "Box<RawValue>); for failing inputs the error of the enclosing Vec / map is a typed-target error (positions of visitor "
+             "errors may differ by the reader's peeked byte): evaluated per case by op rawnest",
+             "stream items of typed item types: not modelled (Value and IgnoredAny items are)"],
     technique="Lean 4 theorem: the byte-step machine's outcome is independent of the slice/reader source (step-wise equality + all "
               "error sites include the offending byte); typed targets by a two-run simulation over the typed model (Proofs/TypedSim: "
               "the runs differ only at errorIdx sites with a peeked byte) + three-source differential run against the crate",
@@ -347,8 +382,14 @@ PROPS["C09"] = dict(
                "peek slot; typed_within_input: every typed error index is <= the input length); c09_typed_slice_reader_class (same value / same code / both Data, index equal "
                "or reader = slice + 1: the predicate op tt3 evaluates), _ok, _err (every other parser error at the same index); "
                "c09_typed_str_slice / c09_typed_all_sources — on valid UTF-8 the &str source gives the identical typed outcome (the "
-               "typed parser consumes ASCII outside strings, so every string starts on a character boundary). The crate is run on every "
-               "generated input from all three "
+               "typed parser consumes ASCII outside strings, so every string starts on a character boundary). "
+               "c09_stream_offsets (StreamDeserializer: "
+               "for every input, item type and number of calls, the slice and reader sources yield the same sequence of items - values, or "
+               "errors with the same code at the same index - and the same byte_offset() after every call; on valid UTF-8 input so does "
+               "the &str source: the unread input of a stream stays valid UTF-8 after each value), c09_raw_sources (from_*::<Box<RawValue>>: "
+               "identical captured span or identical error code and index from slice and reader; from &str too on valid UTF-8 input - a "
+               "captured value begins and ends with an ASCII byte, so the byte sources' from_utf8 check cannot fail there), "
+               "c09_raw_nested_sources / c09_raw_map_sources (successful Vec<Box<RawValue>> / map-of-RawValue captures agree across the three sources). The crate is run on every generated input from all three "
                "sources with random chunkings and the outcomes are compared with each other (spec) and with the model.",
     level_note="Trusted: Lean kernel + 3 standard axioms; extract.py; harness/driver; hand-written machine model validated by "
                "correspondence. Two genuine position defects found by this check were repaired in /repo (fix: commits 28defde, 9343bad).",
@@ -393,14 +434,18 @@ PROPS["C14"] = dict(
          "newtype / tuple / struct enum variants, Option+newtype around Vec) and their rotation, 1, 2, 63 and 124..129 layers (62..65 for the "
          "two-level kinds) around six leaves (bool, Vec<u8> from an array, nested Value, IgnoredAny, Vec, scalar Value), complete / "
          "cut before the closers / cut in half, from slice, reader and str, compared with the typed model; under unbounded_depth also "
-         "with disable_recursion_limit() up to 200 layers (tag ud+nolimit).",
+         "with disable_recursion_limit() up to 200 layers (tag ud+nolimit). "
+         "Streams (op sdepth): "
+         "StreamDeserializer over two items nested d1 / d2 deep for d1, d2 in {0,1,2,126,127,128,129,200} (quick: at least one of them "
+         ">= 126), bracket mixes arrays / objects / alternating, separators none / space / newline / mixed, items Value and "
+         "IgnoredAny, sources str / slice / reader, 4 calls; with unbounded_depth also with the limit disabled.",
     trusted_base=MACHINE_TB,
     assumptions=["memory safety of compiled unsafe blocks, real stack consumption and allocator behaviour are runtime properties outside any model (partial by nature)"],
     partial=["the shape invariant making every remaining model fallback unreachable is proved inside the soundness development "
              "(Proofs/Sound: Inv) but not restated per fallback",
-             "stream depth restoration: not modelled (within one typed run the budget is restored by construction: siblings are read "
-             "at the same depth argument); the recursive Rust type of op tdepth (enum Nest) has no finite schema: its towers are "
-             "covered by the unrolled enum schemas of typed::run_tdepth"],
+             "the recursive Rust type of op tdepth (enum Nest) has no finite schema: its towers are covered by the unrolled enum "
+             "schemas of typed::run_tdepth; c14_stream_depth_restored is about streams of Value / IgnoredAny items (the explicit "
+             "counter of Model.StreamDepth follows deserialize_any's two check_recursion! sites)"],
     technique="Lean 4 invariants over the byte-step machine (stack height < 128 for every reachable state, re-dispatch happens at most "
               "once, UTF-8 of every returned string, no fuel exhaustion, termination by structural recursion) + pathological-input "
               "runs of the crate under catch_unwind (thorough: also under AddressSanitizer)",
@@ -410,7 +455,12 @@ PROPS["C14"] = dict(
                "returned value is valid UTF-8 - for the &str source, which uses str::from_utf8_unchecked, given that its input is "
                "valid UTF-8) and c14_utf8_at_closing_quote (the same at every closing quote reached, also in documents rejected "
                "later), c14_no_fuel / c14_no_fuel_machine (the fuelled f64_from_parts loop of the number conversion never runs out of "
-               "fuel on anything the scanner produces; the float_roundtrip conversion has no fuel); termination by construction. Typed targets "
+               "fuel on anything the scanner produces; the float_roundtrip conversion has no fuel); c14_stream_depth_restored / "
+               "c14_stream_item_budget (Model.StreamDepth threads the Deserializer's remaining_depth counter through a whole stream, "
+               "decrementing / incrementing it where check_recursion! does and testing the limit on the counter: it yields exactly the "
+               "items and offsets of the stream model, the counter reads 128 after every value - and after every failed item except "
+               "RecursionLimitExceeded itself, which leaves 127 once the stream is already fused - so every item that is parsed has the "
+               "full budget of 127 levels); termination by construction. Typed targets "
                "(Props/TypedDepth.lean over Model.Typed): c14_typed_depth_bounded (with the limit enabled, the model with every "
                "deserialize_* call at 128 or more open containers replaced by an arbitrary poison outcome is the same function from "
                "every depth <= 127: no such call is ever made — at most 127 containers are open on any input, accepted or not, for "
@@ -491,30 +541,56 @@ PROPS["C13"] = dict(
 )
 
 PROPS["C19"] = dict(
-    lean_targets=["SJ.Props.C19", "SJ.Props.C01Iff", "SJ.Audit.C19"],
+    lean_targets=["SJ.Props.C19", "SJ.Props.C19Nested", "SJ.Props.C01Iff", "SJ.Audit.C19"],
     configs=dict(quick=["rv"], thorough=["rv", "rvpofr"]),
-    gen_keys=["error.", "de."],
+    gen_keys=["error.", "de.", "ser."],
     rule=PARSE_RULE + " C19 adds, with raw_value enabled: every token sequence of length <= 2 (thorough 3), generated documents and "
          "their mutations captured at top level as Box<RawValue> and &RawValue from str/slice and Box<RawValue> from a reader "
          "(five captures compared with each other, with the model and with the value's source text; a borrowed capture must be "
          "a subslice at the right offset); arrays, objects and structs whose elements' exact source spans are known to the "
          "generator, with every whitespace placement around them, captured as Vec<&RawValue>/Vec<Box<RawValue>>/BTreeMap/struct "
          "fields (incl. an unknown field skipped in between); RawValue::from_string on the same inputs with to_string, pretty, "
-         "nested and to_value of the result.",
-    trusted_base=MACHINE_TB,
+         "nested and to_value of the result. Op rawnest: Vec<Box<RawValue>> (and Vec<&RawValue>, which must be subslices) and the "
+         "entries of a map of Box<RawValue> in source order, from str, slice and a chunked reader, on a fixed corpus, every token "
+         "sequence of length <= 2 (thorough 3) bare and wrapped in [..], [1,..], {\"k\":..}, {..:1}, generated arrays/objects with "
+         "whitespace variety, 3 mutations each and every prefix of a quarter of them; compared with the nested-capture model "
+         "(Model.RawNested) and with element spans computed by the independent scanner Spec.Pos. Op rawser: serializer programs "
+         "with RawValues at arbitrary positions (random RVal programs of depth <= 3 over every container constructor, RawValue "
+         "keys included, leaves = C03 programs) through a recording writer, compact and pretty with indents two spaces / tab / "
+         "empty; compared buffer by buffer with Model.SerRaw.",
+    trusted_base=MACHINE_TB + ["serializer model Model.Ser (C03) for op rawser; typed sequence/map machinery of Model.Typed for op rawnest"],
     assumptions=["RawValue's transmutes between str and RawValue (layout) are outside the model",
-                 "nested captures (array element, object value, struct field) are checked against generator-known spans, not modelled"],
-    partial=["c19_verbatim (serialising writes the text unchanged) and nested capture positions are by correspondence only"],
-    technique="Lean 4 theorems on the top-level capture model (runPrefix = feed + finish: the captured span is accepted on its own as one "
-              "value; surroundings are whitespace) + span-exact differential run with generator-known element spans",
+                 "struct fields captured raw (derive-generated visitor) are checked against generator-known spans (op rawelems), not modelled",
+                 "to_value(RawValue) = from_str(text) is checked per case (op rawstr), not modelled"],
+    partial=["object values captured raw: c19_nested_capture_map / c19_nested_grammar_map are about the entry sequence handed to the map "
+             "visitor (source order, duplicates included); what BTreeMap / IndexMap make of duplicates is C17; the converse grammar "
+             "direction and the comparison with the parsed Value (c19_nested_complete, c19_nested_canon) are proved for arrays only",
+             "c19_nested_capture / c19_top_complete on byte sources take the UTF-8 validity of the element texts as hypothesis (it is "
+             "what from_utf8 checks); that it follows from the UTF-8 validity of the whole input is proved for the three-source "
+             "statement only (C09 c09_raw_sources)"],
+    technique="Lean 4 theorems: top-level and array-element capture = exactly one grammar value (soundness of the machine on the consumed "
+              "bytes + completeness to exclude a shorter/longer reading; loop invariant over SeqAccess), iff with the concatenation "
+              "structure of the array text; one-hole contexts over the RawValue serializer route; span-exact differential runs",
     level_text="Machine-checked: c19_skip_language (the scanner of skipped/raw content accepts a byte string iff it is exactly one RFC "
-               "8259 JSON text, with no depth, surrogate, UTF-8 or range condition), runPrefix_feed and c19_captured_reparses (whatever is captured at top level, taken on its own, is "
-               "accepted by the scanner as exactly one value, from the first non-whitespace byte), skipWs_prefix (only whitespace "
-               "precedes it; rawTop rejects anything but whitespace after it). The crate's captures at top level and at every "
-               "nested position are compared byte for byte with the source spans; from_string/to_string/to_value round trips are "
-               "checked on every input.",
-    level_note="Trusted: Lean kernel + 3 standard axioms; extract.py; harness/driver; machine model (ignored target). The scanner-vs-"
-               "grammar equivalence is being proved separately (C01/C02 branches).",
+               "8259 JSON text, with no depth, surrogate, UTF-8 or range condition), runPrefix_feed and c19_captured_reparses; "
+               "c19_top_span / c19_top_complete (from_*::<Box<RawValue>> captures bs[p..e] iff the input is whitespace, one grammar value "
+               "(Derives, first to last byte, valid UTF-8 on byte sources), whitespace - and then exactly that value); c19_nested_capture "
+               "(from_*::<Vec<Box<RawValue>>> succeeds with captures cs iff the input is ws [ inner ] ws with inner = ws or ws c1 (ws , ws "
+               "ci)* ws and every ci one grammar value: each element is captured from its first to its last byte, nothing else is "
+               "accepted), c19_nested_grammar / c19_nested_complete (these decompositions are the array derivations JsonText bs (arr ts) "
+               "with Derives ci ti), c19_nested_canon (if the same bytes parse into a Value it is an array of as many elements and the "
+               "i-th capture parses on its own to the i-th element); c19_nested_capture_map (a map with String keys and Box<RawValue> values "
+               "succeeds with entries (s_i, c_i) iff the input is ws { inner } ws, inner = ws or ws member (ws , ws member)* ws, member = key "
+               "literal ws : ws c, every key a well-formed literal with paired escapes decoding to s_i (valid UTF-8 on byte sources) and "
+               "every c_i one grammar value), c19_nested_grammar_map (these are object derivations JsonText bs (obj members)); c19_verbatim (a RawValue in the hole of any serializer context - seq, "
+               "tuple, variants, map value, struct field, Some/newtype, nested to any depth - is handed to the writer as one buffer "
+               "holding exactly its text, by the compact and every pretty formatter, and nothing else that is written depends on the "
+               "text), c19_verbatim_top, c19_verbatim_bytes, c19_serR_is_ser (the extended serializer is the C03 serializer with the "
+               "RawValue replaced by a literal leaf), c19_raw_key_rejected. The crate's captures at top level and at every nested "
+               "position are compared byte for byte with the source spans and with the models; from_string/to_string/to_value round "
+               "trips are checked on every input.",
+    level_note="Trusted: Lean kernel + 3 standard axioms; extract.py; harness/driver; machine model (ignored target), the typed model's "
+               "sequence/map machinery, Model.RawNested and Model.SerRaw (validated by ops rawnest / rawser, 0 disagreements).",
 )
 
 PROPS["C01"] = dict(
@@ -567,7 +643,7 @@ PROPS["C02"] = dict(
 )
 
 PROPS["C06"] = dict(
-    lean_targets=["SJ.Props.C06", "SJ.Props.C06Int", "SJ.Audit.C06"],
+    lean_targets=["SJ.Props.C06", "SJ.Props.C06Int", "SJ.Props.C06Via", "SJ.Audit.C06"],
     configs=dict(quick=["d", "ap"], thorough=["d", "ap", "fr"]),
     gen_keys=["de."],
     rule="integer literals: every value within +-40 (thorough +-300) of each power of two up to 2^128 and of each type bound, with "
@@ -576,22 +652,45 @@ PROPS["C06"] = dict(
          "integer types via from_str, from_value, Deserialize for &Value, as a quoted map key of a text object and as a key of a "
          "Value map; Number accessors (as_i64/as_u64/as_i128/as_u128/is_*) of the literal; to_string of the integer. "
          "Non-trivial = literal longer than one byte; distinct = distinct lines.",
-    trusted_base=MACHINE_TB + ["serde's primitive integer visitors (range checks) modelled by documented semantics (visitInt)"],
+    trusted_base=MACHINE_TB + ["serde's primitive integer visitors (range checks) modelled by documented semantics (visitInt)",
+                               "hand-written models of the typed text entry points (Model.Typed), of src/value/de.rs + Number's Deserializer impl "
+                               "(Model.FromValue) and of the string-backed Number (Model.NumberAp); all five paths of op int and every accessor of op "
+                               "acc are computed by these models in both configurations and compared with the crate (0 disagreements)",
+                               "<iN/uN as FromStr>::from_str (core::num::from_str_radix): optional + (or - for signed types), at least one digit, "
+                               "nothing else, value must fit - by documented semantics (FromValue.rustParseInt)"],
     assumptions=["a Value cannot hold integers outside [i64::MIN, u64::MAX] nor -0 as an integer without arbitrary_precision: the "
-                 "via-Value clause is judged on representable literals only",
+                 "via-Value clause is judged on representable literals only (now a hypothesis of c06_via_value for the 128-bit targets)",
                  "itoa prints plain decimal digits (checked by the iprint op on every literal)"],
-    partial=["via-Value and map-key paths are tied by correspondence + the property's predicate; only the text path has a Lean model "
-             "(the map-key path runs the same deserialize_number)"],
+    partial=["c06_via_value_ap_partial: under arbitrary_precision the via-Value path (from_value / &Value = lit.parse::<iN>()) equals the "
+             "statement's verdict for every literal and width EXCEPT the literal -0 into i8/i16/i32/i64, where it returns 0 while text and "
+             "both key paths reject (-0 is the float negative zero): the exception is a conjunct of the theorem and is witnessed by the "
+             "kernel-evaluated c06_ap_negative_zero_via_value; open known finding C06-ap-negative-zero-via-value",
+             "c06_via_value (default build): for the 128-bit targets the via-Value clause carries the proviso the statement itself makes - the "
+             "Value must hold the literal as an integer (not -0, within [i64::MIN, u64::MAX]); otherwise the Value is a float and from_value "
+             "returns nothing (proved as the last conjunct)",
+             "the quoted-key clause is proved at MapKey::deserialize_iN (Model.Typed.keyInt on \"lit\" followed by any rest, which is left "
+             "unread); the object around it (hasNextKey, colon, value, end_map) is generic typed-model code and is exercised on the whole "
+             "document {\"lit\":null} by op int (driver field 4 = deTypedTop on that document)"],
     technique="Lean 4 theorems: overflow! guard = mathematical comparison; digit-loop and integer classification for every digit string; "
               "typed deserialisation = value-and-range specification for all ten integer widths, both float configurations; "
-              "accessor laws; boundary-dense differential run over five deserialisation paths",
+              "accessor laws; all five access paths (text, from_value, &Value, quoted key, key of a Value object) as theorems over the "
+              "typed text model, the Value parser model and the value/de.rs model against one specification of the literal's worth; "
+              "boundary-dense differential run over the five paths with every field computed by those models",
     level_text="Machine-checked: c06_typed (for every integer type and every number literal, text deserialisation returns the literal's "
                "mathematical value iff it has no fraction/exponent, is not -0 (8..64-bit) and lies in the type's range; never wraps), "
                "c06_overflow_guard_spec, c06_digit_loop, c06_parse_integer(_intClass), c06_minus_zero, c06_out_of_integer_range, "
-               "c06_accessors (as_* exact or None; is_* iff as_* is Some). The crate is run on boundary-dense literals through text, "
-               "Value (owned and borrowed) and both map-key paths for twelve integer types, plus accessors and printing.",
+               "c06_accessors (as_* exact or None; is_* iff as_* is Some); c06_via_value (default build, both float configurations, every "
+               "source: for every RFC 8259 number literal and each of the ten integer widths, from_str::<T>, the literal as a quoted key of a "
+               "text object, the literal as a key of a Value object, and - whenever the literal parses into a Value - from_value::<T> and "
+               "T::deserialize(&Value) all return Spec.NumberAcc.targetInt of the literal, i.e. the same integer or all reject; 128-bit "
+               "targets through a Value under the representability proviso) and c06_via_value_ap_partial (the same under "
+               "arbitrary_precision for all widths incl. 128 bits without proviso, with the single exception -0 into i8..i64 via Value made "
+               "explicit and witnessed: c06_ap_negative_zero_via_value). The crate is run on boundary-dense literals through text, "
+               "Value (owned and borrowed) and both map-key paths for twelve integer types, plus accessors and printing; all fields are "
+               "computed by the models the theorems are about.",
     level_note="Trusted: Lean kernel + 3 standard axioms; extract.py; harness/driver; Model.Num/TypedInt transcriptions validated by "
-               "correspondence; serde's visitors assumed. One open finding under arbitrary_precision (-0 via Value).",
+               "correspondence; serde's visitors and std's integer FromStr assumed. One open finding under arbitrary_precision (-0 via Value), "
+               "now an explicit, kernel-witnessed exception of c06_via_value_ap_partial.",
 )
 
 PROPS["C20"] = dict(
@@ -605,17 +704,31 @@ PROPS["C20"] = dict(
          "Number and of the Value, pretty, and nested in a document read through a chunked reader; documents of arrays of such "
          "literals with whitespace re-serialised; plus the whole parser input space of C01 (values compared as literal text).",
     trusted_base=MACHINE_TB,
-    assumptions=["as_f64 of an arbitrary-precision Number is str::parse::<f64> (std); the correspondence compares it with Spec.Ieee.roundNE64 of the literal's exact value",
+    assumptions=["as_f64 of an arbitrary-precision Number is str::parse::<f64> (std, core::num::dec2flt), ASSUMED correctly rounded with overflow to +-inf "
+                 "(its documented contract): Model.NumberAp rounds the exact decimal value with Spec.Ieee.roundNE64; the correspondence compares the crate's "
+                 "as_f64 with that model and, independently, with roundNE64 of the literal's exact value. std's exponent accumulator saturates at 65536 "
+                 "digits-worth, irrelevant below 65 000-byte literals",
+                 "<iN/uN as FromStr>::from_str = core::num::from_str_radix(.., 10): optional + (- for signed), digits, in range (documented semantics)",
                  "Number::from_str = number entry point + end-of-input check, modelled as 'parser returns a number and the input has no whitespace'"],
-    partial=["c20_typed_same (typed deserialisation independent of the feature) is C06's c06_typed, which does not mention the feature; "
-             "the accessor clause is checked by correspondence against the literal's exact value"],
+    partial=["c20_typed_same excludes schemas with a Value target inside (there the feature changes the representation of numbers by design); on all "
+             "other schemas the two builds return the same outcome or both fail - they can fail with different errors in one situation only (a number "
+             "where another kind is expected: peek_invalid_type parses it as deserialize_any would, so an out-of-range literal is 'number out of range' "
+             "without the feature and 'invalid type' with it); for numeric targets on number-like input the outcomes are identical "
+             "(c20_typed_number_identical)",
+             "c20_accessors / c18 float clauses rest on the assumption that std's str::parse::<f64/f32> is correctly rounded (trusted base)"],
     technique="Lean 4 theorems derived from parser soundness/completeness: under arbitrary_precision every RFC 8259 number literal parses "
               "to the number whose text is the literal byte for byte; only number literals yield numbers; exhaustive number-alphabet "
               "differential run of Number::from_str and verbatim re-serialisation",
     level_text="Machine-checked: c20_verbatim (for every number literal p, any length and spelling, parsing p.bytes under "
                "arbitrary_precision gives Num.lit p.bytes), c20_nested (the same for a literal anywhere in a document, via the "
                "denotation theorem c02_denotes), c20_from_str_sound (a whitespace-free input that parses to a number is exactly an RFC "
-               "8259 number and is stored unchanged). The crate's as_str/Display/to_string/pretty/nested outputs are compared with the "
+               "8259 number and is stored unchanged), c20_accessors / c20_parsed_accessors (for every stored literal the accessors of the string-backed "
+               "Number computed as the crate computes them - self.n.parse::<i64/u64/i128/u128/f64>() - are: the exact integer value iff the literal has no "
+               "fraction/exponent and fits, unsigned ones None on any minus sign; as_f64 = Spec.Ieee.roundNE64 of the exact rational value, None iff "
+               "that overflows; is_* iff as_* is Some; is_f64 iff fraction/exponent present and finite), c20_as_f32, c20_typed_same / "
+               "c20_typed_same_value / c20_typed_number_identical (the typed text deserializer model returns the same outcome with and without the "
+               "feature for every schema without a Value target and every input, or fails in both; identical outcomes for numeric targets). "
+               "The crate's as_str/Display/to_string/pretty/nested outputs are compared with the "
                "literal on random, boundary and 1000-digit literals; Number::from_str is run on every string of length <= 5-6 over the "
                "number alphabet against the grammar.",
     level_note="Trusted: Lean kernel + 3 standard axioms; extract.py; harness/driver; machine model. A genuine defect (-0 stored as 0) was "
@@ -665,13 +778,19 @@ PROPS["C16"] = dict(
                  "or a short literal (<= 15 significant digits, |decimal exponent| <= 22), as the statement says"],
     partial=["c16_agree_partial / c16_text_agrees_partial: the owned/borrowed leg is proved in full strength over the whole universe and "
              "every configuration (c16_owned_borrowed). The text leg — Model.Typed.deTypedTop (transcription of de.rs's typed entry "
-             "points + end()) on the serializer model's to_string(v) equals fromValue — is proved for the fragment bool / twelve integer "
-             "widths / unit / unit struct / Option / newtype / Vec / fixed tuples over float-free non-arbitrary_precision values within "
-             "the depth budget, matching and mismatching values alike. Missing: strings, char, bytes, every map / struct / enum target "
-             "(need the string sub-machine round trip parse(escape s) = s over runPfx), float targets and values (ryu's shape), "
-             "IgnoredAny and Value targets (C01 completeness over runPfx), arbitrary_precision. Outside the fragment the three-way "
-             "agreement is carried by the correspondence run: the executable specification compares the three REAL outcomes on every "
-             "generated pair and the driver's third model field is computed by the typed model from the text (0 disagreements)",
+             "points + end()) on the serializer model's to_string(v) equals fromValue, matching and mismatching values alike — is "
+             "proved (c16_text_agrees_partial) for every schema without float targets: bool, twelve integer widths, char, String, "
+             "byte buffers, unit / unit struct, Option, newtype, Vec, fixed tuples, maps with every key kind (string, twelve integer "
+             "widths, bool, char, unit-variant enums; arbitrary key strings), structs with and without deny_unknown_fields from "
+             "arrays and objects, enums with unit / newtype / non-empty tuple / struct variants, IgnoredAny, Value at any nesting "
+             "depth — over float-free non-arbitrary_precision values of the build (shapeOK) within the depth budget and outside the "
+             "statement's exclusions (struct variant written as an array: hasArrayPayload; zero-length tuple variant: part of the "
+             "fragment). Missing: f64 targets and float values (the link between the typed number scanner and ryu's text under "
+             "FloatsRoundTrip; a float under a 128-bit integer target is consumed as its integer prefix and rejected only by the "
+             "caller, so the per-target invariant fails there), f32 (outside the claim), arbitrary_precision. For these the "
+             "three-way agreement is carried by the correspondence run: the executable specification compares the three REAL "
+             "outcomes on every generated pair and the driver's third model field is computed by the typed model from the text "
+             "(0 disagreements)",
              "the wire codecs of Schema / TVal have no round-trip lemma (decode (enc x) = x); they are exercised on every case line"],
     technique="Lean 4 theorem by mutual structural induction over a nested typed universe: the two transcriptions of src/value/de.rs (owned "
               "Deserializer for Value, borrowed Deserializer for &Value, each with its seq/map/enum/variant access types, sharing Number's "
@@ -692,7 +811,8 @@ PROPS["C16"] = dict(
                "WTF-8 strings, option, seq / tuple with end_seq, maps with MapKey for every key kind, structs, enums, ignored, any, "
                "recursion budget, error positions for slice and reader); typed_no_panic / typed_fuel_suffices / typed_fuel_irrelevant "
                "(the model is total and its fuel is sufficient: the result is never `fuel` once fuel > schema size), typed_progress, and "
-               "c16_text_agrees_partial (text leg = from_value on the scalar / sequence fragment). The typed model is compared with the "
+               "c16_text_agrees_partial (text leg = from_value on every schema without float targets, over float-free values: strings, "
+               "maps with every key kind, structs, enums, IgnoredAny and nested Value included). The typed model is compared with the "
                "crate on every C16 pair's text and on ~200k (schema, text) cases per configuration incl. mutated texts, with message, "
                "category, line and column (0 disagreements).",
     level_note="Trusted: Lean kernel + propext/Classical.choice/Quot.sound; harness/driver comparison; the universal seed and serde's visitors "
@@ -782,8 +902,14 @@ PROPS["C04"] = dict(
          "Vec, tuples, arrays, BTreeMap/HashMap with string/integer/bool/char/newtype/unit-variant keys, enums with all four variant "
          "kinds incl. empty tuple/struct variants and escaped names, ByteBuf, recursive types, std types), 40 (thorough 1500) random "
          "instances per type from the harness PRNG through the same six combinations, compared after the Some(null-like) -> None "
-         "normalisation. A case is non-trivial when the value is a number, a non-empty string or a container (rtt: always); "
-         "distinct = distinct case lines.",
+         "normalisation. rtm: typed data over the schema universe of C16 (harness/src/c04m.rs) — 6000 (thorough 120000) random "
+         "(schema, typed value) pairs per configuration (gen_schema depth 0-3 with IgnoredAny replaced by (), values inhabiting the "
+         "type: integer bounds of every width, adversarial strings / chars / bytes, maps with distinct keys of every key kind, every "
+         "variant shape incl. zero-length tuple variants, Value members, f64 from the float family of the configuration, finite f32), "
+         "serialised by a dynamic Serialize that makes the calls of serde's / derive's impls, compact and pretty, read back with the "
+         "universal seed; the case line carries schema, value and the float texts, the driver computes the model's text and decoded "
+         "value. A case is non-trivial when the value is a number, a non-empty string or a container (rtt: always; rtm: the schema "
+         "is not bool / unit); distinct = distinct case lines.",
     trusted_base=[KERNEL, TIE,
                   "hand-written models Model.Ser (serializer, tied by C03's correspondence) and Model.Machine/Model.Num (parser, tied by "
                   "C01/C02's correspondence); here their composition is run against the crate's own round trip on every generated Value",
@@ -792,11 +918,24 @@ PROPS["C04"] = dict(
                  "ryu::Buffer::format_finite prints an RFC 8259 number; that the configured parser maps this text back to the same double is "
                  "the explicit hypothesis FloatsRoundTrip of the theorems (C07's corollary under float_roundtrip, C08's exact case for short "
                  "literals) and is evaluated by the driver on the text the crate printed for every generated float",
-                 "io::Write / io::Read deliver bytes in order (Vec writer, chunked reader)"],
-    partial=["typed clause (c04_typed): the typed text deserializer now has a Lean model (SJ/Model/Typed.lean, validated under C16 / C10 / "
-             "C13 / C09) but typed SERIALISATION of derived types has none, so no typed round-trip theorem is stated; the clause is "
-             "carried by the correspondence run (op rtt: derived types through the real crate, model = echo). The value-level piece "
-             "that exists: c16_text_agrees_partial (from_str::<T>(to_string(v)) = from_value::<T>(v) on the scalar / sequence fragment)",
+                 "io::Write / io::Read deliver bytes in order (Vec writer, chunked reader)",
+                 "typed clause: the Serialize impls are serde's (leaves, Option, Vec, tuples, maps) and serde_derive's (structs, enums) — "
+                 "code outside /repo; Model.TypedSer.progOf transcribes the calls they make (serialize_struct / serialize_field / "
+                 "serialize_*_variant / collect_seq / collect_map ...), and the harness op rtm (harness/src/c04m.rs: Dyn) makes exactly "
+                 "these calls against the real serializer for generated (schema, value) pairs"],
+    partial=["typed clause: c04_typed_partial — for every schema of the fragment agreeFragT (bool, twelve integer widths incl. every "
+             "128-bit value, char, String, byte buffers, unit / unit struct, Option, newtype, Vec, tuples, maps with every key kind, "
+             "structs, enums with unit / newtype / non-empty tuple / struct variants) and every well-formed typed value (wfTV: inhabits "
+             "the type, strings valid UTF-8, chars scalar, field / variant / key names distinct valid UTF-8, no Some(x) with x "
+             "serialising as null) whose text nests <= 127 deep: serCompact of the serializer program Model.TypedSer.progOf s v (the "
+             "calls serde's / serde_derive's Serialize impls make) succeeds and deTypedTop s of that text returns v, from every source. "
+             "Obtained by composition: C03 (text = render of the program's image), image_progOf (= image of the Value valueOf s v), "
+             "fromValue_valueOf (from_value(to_value(v)) = v) and the text leg of C16 (agree_gen). Missing: the pretty formatter (the "
+             "text leg is proved for the compact layout only), f64 / f32 fields (float step through the typed number scanner), Value "
+             "members (wfTV does not carry WFValue), IgnoredAny (no Serialize impl), zero-length tuple variants (from_value refuses "
+             "{\"V\":[]}, so the composition breaks although the text round trip holds), arbitrary_precision. All of these are "
+             "covered by the correspondence op rtm (both formatters, floats, f32, Value members, int keys: model text and model "
+             "decoded value computed, 0 disagreements) and by rtt (zoo of real derived types, model = echo)",
              "floats: c04_value takes the hypothesis FloatsRoundTrip cfg ext v (for every Float in v, parsing the text ryu prints gives that "
              "Float back); under float_roundtrip it is now discharged: c04_value_fr needs only the named hypothesis RyuShortest about "
              "the external printer (C07: c07_correct / c07_roundtrip); for the default build it remains a hypothesis (C08 covers short "
@@ -808,7 +947,9 @@ PROPS["C04"] = dict(
               "JSON whitespace, so a harmless change of the pretty layout alarms C03 but not C04) with C01 "
               "completeness (derivable text meeting the side conditions is accepted with value canonM) and a structural induction showing "
               "canonM(cstOf(image v)) = v for every well-formed Value; differential run of the composed models against the crate's own "
-              "round trips; typed data by differential round trips of a zoo of derived types",
+              "round trips; typed data: Lean theorem c04_typed_partial by composition (C03 on the program progOf, image = image of valueOf, "
+              "from_value(to_value) = id, text leg of C16), differential round trips of a zoo of derived types (rtt) and of generated "
+              "(schema, value) pairs with computed model text and value (rtm)",
     level_text="Machine-checked: c04_value / c04_value_pretty (for every build, source, well-formed Value v and whitespace indent: the model "
                "serializer's output parses back to exactly v, given that the float printer/parser pair returns the floats of v), "
                "c04_value_nofloat and c04_value_ap (no float hypothesis), c04_value_all_floats (global float hypothesis), c04_value_fr (under "
@@ -819,10 +960,14 @@ PROPS["C04"] = dict(
                "default build and from roundNE64's range for float_roundtrip), hence c04_reparse / c04_reparse_ap (serialise-then-parse "
                "of any parsed value gives it back, across sources and formatters). The crate's to_string/to_vec/to_writer(+pretty) "
                "followed by from_str/from_slice/from_reader is run on generated Values and compared both with the original and with the "
-               "Lean round trip; typed data (derived types covering the serde data model) is round-tripped through the crate.",
+               "Lean round trip. Typed clause: c04_typed_partial (machine-checked, compact formatter, float-free fragment, every "
+               "source); typed data (derived types covering the serde data model) is round-tripped through the crate (rtt), and "
+               "generated (schema, value) pairs are serialised and read back by the crate and by the models, compared byte for byte "
+               "and value for value (rtm).",
     level_note="Trusted: Lean kernel + 3 standard axioms; extract.py; harness/driver; the serializer and parser models (tied by C03 and "
-               "C01/C02 correspondence); itoa/ryu as parameters. Partial: typed clause by correspondence only; the float step of the round trip "
-               "(printed text reads back as the same double) is a named hypothesis (C07/C08); finiteness of parsed floats is proved.",
+               "C01/C02 correspondence); itoa/ryu as parameters; serde's and serde_derive's Serialize impls as transcribed by progOf. "
+               "Partial: typed clause proved for the compact formatter on the float-free fragment, the rest by correspondence; float "
+               "step is a named hypothesis (C07/C08).",
 )
 
 PROPS["C07"] = dict(
